@@ -811,6 +811,21 @@ impl Exec {
                     Err(_) => self.emit(line, "PANIC"),
                 }
             }
+            ["v5", ns, c] => {
+                // the id the REAL generator over `ns`, restored at counter `c` (built by the constructor for 0), hands out
+                let (Ok(nsv), Ok(c)) = (ns.parse::<u128>(), c.parse::<u64>()) else { return false };
+                let nsu = Uuid::from_u128(nsv);
+                let built = if c == 0 { Ok(UuidGenerator::new(nsu)) } else {
+                    serde_json::from_str::<UuidGenerator>(&format!("{{\"namespace\":\"{}\",\"counter\":{}}}", nsu, c))
+                };
+                match built {
+                    Ok(g) => match catch_unwind(AssertUnwindSafe(|| g.next())) {
+                        Ok(u) => self.emit(line, format!("v5 {}", u.as_u128())),
+                        Err(_) => self.emit(line, "PANIC"),
+                    },
+                    Err(e) => self.emit(line, format!("v5 err={}", e.to_string().replace(' ', "_"))),
+                }
+            }
             ["quiet", v] => {
                 self.quiet = *v == "on";
                 self.emit(line, "quiet");
